@@ -77,8 +77,13 @@ def main():
     sys.stdout.write(r.stdout)
     sys.stderr.write(r.stderr)
     rc = r.returncode
-    if rc == 2:
-        sys.exit(2)
+    if rc >= 2:
+        # the tree could not be judged at all (it does not type-check, or the checker failed): reported like a violation
+        os.makedirs(os.path.join(HERE, "evidence", "replay"), exist_ok=True)
+        log = os.path.join(HERE, "evidence", "replay", prop + "-checker-error.log")
+        open(log, "w").write(r.stdout + r.stderr)
+        print(f"VIOLATION property={prop} replay={log}")
+        sys.exit(1)
     must, silent = variants(prop)
     results = {"must_fire": [], "must_stay_silent": []}
     with cf.ThreadPoolExecutor(max_workers=6) as ex:
